@@ -60,12 +60,12 @@ var (
 	Stderr      = os.Stderr
 )
 
-func Exit(code int)                          { os.Exit(code) }
-func Getpid() int                            { return os.Getpid() }
-func FindProcess(pid int) (*Process, error)  { return os.FindProcess(pid) }
-func IsExist(err error) bool                 { return os.IsExist(err) }
-func IsNotExist(err error) bool              { return os.IsNotExist(err) }
-func Getenv(k string) string                 { return os.Getenv(k) }
+func Exit(code int)                         { os.Exit(code) }
+func Getpid() int                           { return os.Getpid() }
+func FindProcess(pid int) (*Process, error) { return os.FindProcess(pid) }
+func IsExist(err error) bool                { return os.IsExist(err) }
+func IsNotExist(err error) bool             { return os.IsNotExist(err) }
+func Getenv(k string) string                { return os.Getenv(k) }
 func MkdirAll(p string, m FileMode) error {
 	if _, _, ok := memOf(p); ok {
 		return nil // directories are implicit in the in-memory fs
@@ -456,8 +456,8 @@ type memInfo struct {
 	dir  bool
 }
 
-func (i memInfo) Name() string       { return i.name }
-func (i memInfo) Size() int64        { return i.size }
+func (i memInfo) Name() string { return i.name }
+func (i memInfo) Size() int64  { return i.size }
 func (i memInfo) Mode() fs.FileMode {
 	if i.dir {
 		return fs.ModeDir | 0o755
